@@ -140,6 +140,18 @@ structure Cfg.GoodScan (c : Cfg) : Prop where
   infoReadGoneEsrch : c.infoReadGoneEsrch = true
   finalAliveCheck : c.finalAliveCheck = true
 
+/-- permission: the strict stat helpers and the loop let PermissionError through, nothing in the
+    loop swallows it as "gone", `wrap_exceptions` turns it into AccessDenied and asks
+    `_raise_if_zombie()` first for ENOENT / ESRCH -/
+structure Cfg.GoodAccess (c : Cfg) : Prop where
+  isfileDeniedRaises : c.isfileDeniedRaises = true
+  existsDeniedRaises : c.existsDeniedRaises = true
+  linkGoneDenied : c.linkGoneDenied = false
+  linkDeniedRaises : c.linkDeniedRaises = true
+  infoGoneDenied : c.infoGoneDenied = false
+  wrapPermAD : c.wrapPermAD = true
+  wrapZombieFirst : c.wrapZombieFirst = true
+
 def posLine (pos : Nat) : Bytes := [112, 111, 115, 58] ++ [9] ++ renderDec pos
 def flagsLine (flags : Nat) : Bytes := [102, 108, 97, 103, 115, 58] ++ [9] ++ (48 :: renderRadix octal flags)
 
@@ -302,7 +314,7 @@ theorem pyReadlink_regular (c : Cfg) (hg : c.GoodScan) (fs : FS) (path : Bytes) 
 
 theorem pyReadlink_device (c : Cfg) (hg : c.GoodScan) (fs : FS) (path : Bytes)
     (hwf : WFKind fs (.device path)) : fs.isFile (pyReadlink c fs (linkText (.device path))) = false := by
-  obtain ⟨hnul, h1, h2⟩ := hwf
+  obtain ⟨_, hnul, h1, h2, _⟩ := hwf
   unfold pyReadlink
   simp only [linkText, takeWhile_no_nul _ hnul, hg.delSuffix, hg.delCut]
   unfold stripDel at h2
@@ -336,7 +348,70 @@ theorem link_cond (c : Cfg) (hg : c.GoodScan) (fs : FS) (k : FdKind) (hwf : WFKi
   | device path =>
     rw [pyReadlink_device c hg fs path hwf]; simp [target]
   | relative t =>
-    rw [not_abs_of_head c hg fs _ (by simpa [linkText, WFKind] using hwf)]; simp [target]
+    rw [not_abs_of_head c hg fs _ (by simpa [linkText] using hwf.1)]; simp [target]
+
+theorem reachesFdinfo_eq (fs : FS) (k : FdKind) : reachesFdinfo fs k = (target fs k).isSome := by
+  cases k <;> simp [reachesFdinfo, target]
+  rename_i path _
+  cases fs.isFile path <;> rfl
+
+/-- the two `os.stat` calls that may be refused (`path_exists_strict` inside `readlink()`, then
+    `isfile_strict`) are refused exactly when the specification says the target cannot be
+    stat'ed -/
+theorem denied_cond (c : Cfg) (hg : c.GoodScan) (ha : c.GoodAccess) (fs : FS) (k : FdKind) (hwf : WFKind fs k) :
+    (pyReadlinkDenied c fs (linkText k) ||
+      (startsWith c.absPrefix (pyReadlink c fs (linkText k)) &&
+        (c.isfileDeniedRaises && fs.denied (pyReadlink c fs (linkText k))))) = statDenied fs k := by
+  have nonpath : ∀ k' : FdKind, fs.denied ((linkText k').takeWhile (· != 0)) = false →
+      (linkText k').head? ≠ some 47 →
+      (pyReadlinkDenied c fs (linkText k') ||
+        (startsWith c.absPrefix (pyReadlink c fs (linkText k')) &&
+          (c.isfileDeniedRaises && fs.denied (pyReadlink c fs (linkText k'))))) = false := by
+    intro k' hd hh
+    rw [not_abs_of_head c hg fs _ hh]
+    simp [pyReadlinkDenied, hd]
+  cases k with
+  | regular path del =>
+    have hp := pyReadlink_regular c hg fs path del hwf
+    obtain ⟨hhead, hnul, _⟩ := hwf
+    rw [hp, hg.absPrefix, startsWith_slash hhead, ha.isfileDeniedRaises]
+    unfold pyReadlinkDenied
+    cases del with
+    | false =>
+      simp only [linkText, Bool.false_eq_true, if_false, takeWhile_no_nul _ hnul, statDenied,
+        ha.existsDeniedRaises, Bool.true_and, Bool.false_and, Bool.or_false]
+      cases endsWith c.delSuffix path <;> cases fs.denied path <;> rfl
+    | true =>
+      have h0 : 0 ∉ path ++ delText := by
+        simp only [List.mem_append, not_or]; exact ⟨hnul, delText_no_nul⟩
+      simp only [linkText, if_true, takeWhile_no_nul _ h0, statDenied, ha.existsDeniedRaises, hg.delSuffix,
+        endsWith_append, Bool.true_and]
+      exact Bool.or_comm _ _
+  | socket ino => exact nonpath _ hwf (by simp [linkText])
+  | pipe ino => exact nonpath _ hwf (by simp [linkText])
+  | anon name => exact nonpath _ hwf (by simp [linkText])
+  | relative t => exact nonpath _ hwf.2 (by simpa [linkText] using hwf.1)
+  | device path =>
+    obtain ⟨hhead, hnul, _, _, himp⟩ := hwf
+    unfold pyReadlinkDenied pyReadlink
+    simp only [linkText, takeWhile_no_nul _ hnul, hg.delSuffix, hg.delCut, hg.absPrefix,
+      ha.existsDeniedRaises, ha.isfileDeniedRaises, Bool.true_and, statDenied]
+    unfold stripDel at himp
+    cases he : endsWith delText path with
+    | false => simp [startsWith_slash hhead]
+    | true =>
+      simp only [he, if_true] at himp
+      cases hx : fs.pathExists path with
+      | true => simp [startsWith_slash hhead]
+      | false =>
+        cases hd : fs.denied path with
+        | true => simp
+        | false =>
+          have : fs.denied (List.take (path.length - 10) path) = false := by
+            cases h : fs.denied (List.take (path.length - 10) path) with
+            | false => rfl
+            | true => rw [himp h] at hd; cases hd
+          simp [this]
 
 /-! ### one loop iteration over a rendered descriptor -/
 
@@ -362,66 +437,109 @@ theorem hits_listed (fs : FS) (d : Fd) (h : hits fs d = true) : listed fs d = no
   | none => simp [hc] at h
   | some s => rfl
 
-theorem scanOne_render (c : Cfg) (hg : c.GoodScan) (hm : ∀ flags, fileFlagsToMode c flags = some (Spec.mode flags))
+theorem scanOne_render (c : Cfg) (hg : c.GoodScan) (ha : c.GoodAccess)
+    (hm : ∀ flags, fileFlagsToMode c flags = some (Spec.mode flags))
     (fs : FS) (d : Fd) (hwf : WFFd fs d) :
     scanOne c fs (renderFd d) =
-      if hits fs d then .hit else match listed fs d with
+      if deniedFd fs d then .raise .permissionError
+      else if hits fs d then .hit else match listed fs d with
         | some f => .item f
         | none => .skip := by
   obtain ⟨hcond, hpath⟩ := link_cond c hg fs d.kind hwf
+  have hden := denied_cond c hg ha fs d.kind hwf
+  have hdl : deniedLinkStep c = .raise .permissionError := by
+    simp [deniedLinkStep, ha.linkGoneDenied, ha.linkDeniedRaises]
   rw [listed_eq]
-  unfold scanOne hits renderFd
+  -- the part of `scanOne` after a successful `os.readlink`
+  have hok : ∀ info : InfoRes, scanOne c fs ⟨renderDec d.n, .ok (linkText d.kind), info⟩ =
+      if statDenied fs d.kind then .raise .permissionError
+      else if (target fs d.kind).isSome then
+        scanFile c ⟨renderDec d.n, .ok (linkText d.kind), info⟩ (pyReadlink c fs (linkText d.kind))
+      else .skip := by
+    intro info
+    unfold scanOne
+    simp only
+    rw [← hden, ← hcond, hdl]
+    cases pyReadlinkDenied c fs (linkText d.kind) <;>
+      cases (startsWith c.absPrefix (pyReadlink c fs (linkText d.kind)) &&
+        (c.isfileDeniedRaises && fs.denied (pyReadlink c fs (linkText d.kind)))) <;> simp
+  have hrf := reachesFdinfo_eq fs d.kind
+  unfold hits deniedFd renderFd
   cases hc : d.closesAt with
   | some st =>
     cases st with
     | beforeReadlink e =>
-      cases e <;> simp [linkErrStep, linkErrOf, hg.linkGoneEnoent, hg.linkGoneEsrch]
+      cases e <;> simp [scanOne, linkErrStep, linkErrOf, hg.linkGoneEnoent, hg.linkGoneEsrch]
     | beforeFdinfo e =>
-      simp only [hcond]
-      cases ht : target fs d.kind with
-      | none => simp
-      | some q => cases e <;> simp [readFdinfo, infoErrStep, hg.infoGoneEnoent, hg.infoGoneEsrch]
+      by_cases hdr : d.deniedAt = some .readlink
+      · simp [scanOne, hdr, linkErrStep, hdl]
+      · simp only [hdr, if_false, hok]
+        have hb : (d.deniedAt == some DenyAt.readlink) = false := by simpa using hdr
+        simp only [hb, Bool.false_or]
+        cases hsd : statDenied fs d.kind with
+        | true => simp
+        | false =>
+          cases ht : target fs d.kind with
+          | none => simp
+          | some q => cases e <;> simp [scanFile, readFdinfo, infoErrStep, hg.infoGoneEnoent, hg.infoGoneEsrch]
     | duringFdinfo second e =>
-      simp only [hcond]
-      cases ht : target fs d.kind with
-      | none => simp
-      | some q =>
-        cases e <;> simp [(readFdinfo_render c hg d).2, infoReadErrStep, hg.infoReadGoneEnoent,
-          hg.infoReadGoneEsrch]
+      by_cases hdr : d.deniedAt = some .readlink
+      · simp [scanOne, hdr, linkErrStep, hdl]
+      · simp only [hdr, if_false, hok]
+        have hb : (d.deniedAt == some DenyAt.readlink) = false := by simpa using hdr
+        simp only [hb, Bool.false_or, hrf]
+        cases hsd : statDenied fs d.kind with
+        | true => simp
+        | false =>
+          cases ht : target fs d.kind with
+          | none => simp
+          | some q =>
+            by_cases hdf : d.deniedAt = some .fdinfo
+            · simp [hdf, scanFile, readFdinfo, ha.infoGoneDenied]
+            · have hb2 : (d.deniedAt == some DenyAt.fdinfo) = false := by simpa using hdf
+              cases e <;> simp [hdf, hb2, scanFile, (readFdinfo_render c hg d).2, infoReadErrStep,
+                hg.infoReadGoneEnoent, hg.infoReadGoneEsrch]
   | none =>
-    simp only [hcond]
-    cases ht : target fs d.kind with
-    | none => simp
-    | some q =>
-      simp only [Option.isSome_some, if_true, (readFdinfo_render c hg d).1, hm, pyInt_dec,
-        hpath q ht, Option.map_some, Bool.false_eq_true, if_false]
+    by_cases hdr : d.deniedAt = some .readlink
+    · simp [scanOne, hdr, linkErrStep, hdl]
+    · simp only [hdr, if_false, hok]
+      have hb : (d.deniedAt == some DenyAt.readlink) = false := by simpa using hdr
+      simp only [hb, Bool.false_or, hrf]
+      cases hsd : statDenied fs d.kind with
+      | true => simp
+      | false =>
+        cases ht : target fs d.kind with
+        | none => simp
+        | some q =>
+          by_cases hdf : d.deniedAt = some .fdinfo
+          · simp [hdf, scanFile, readFdinfo, ha.infoGoneDenied]
+          · have hb2 : (d.deniedAt == some DenyAt.fdinfo) = false := by simpa using hdf
+            simp [hdf, hb2, scanFile, (readFdinfo_render c hg d).1, hm, pyInt_dec, hpath q ht]
 
-/-- the whole loop over a rendered table -/
-theorem scan_render (c : Cfg) (hg : c.GoodScan) (hm : ∀ flags, fileFlagsToMode c flags = some (Spec.mode flags))
+/-- the whole loop over a rendered table: PermissionError at the first descriptor the monitor
+    may not inspect, else the list and `hit_enoent` -/
+theorem scan_render (c : Cfg) (hg : c.GoodScan) (ha : c.GoodAccess)
+    (hm : ∀ flags, fileFlagsToMode c flags = some (Spec.mode flags))
     (fs : FS) (t : List Fd) (hwf : ∀ d ∈ t, WFFd fs d) :
-    scan c fs (t.map renderFd) = .ok (t.filterMap (listed fs), t.any (hits fs)) := by
+    scan c fs (t.map renderFd) =
+      if t.any (deniedFd fs) then .error .permissionError
+      else .ok (t.filterMap (listed fs), t.any (hits fs)) := by
   induction t with
   | nil => rfl
   | cons d ds ih =>
     have ih' := ih (fun x hx => hwf x (by simp [hx]))
-    have h1 := scanOne_render c hg hm fs d (hwf d (by simp))
-    simp only [List.map_cons, scan]
-    cases hh : hits fs d with
-    | true =>
-      simp only [hh, if_true] at h1
-      rw [h1, ih']
-      simp [hits_listed fs d hh, hh, Except.map]
-    | false =>
-      simp only [hh, Bool.false_eq_true, if_false] at h1
-      cases hl : listed fs d with
-      | none =>
-        simp only [hl] at h1
-        rw [h1, ih']
-        simp [hl, hh]
-      | some f =>
-        simp only [hl] at h1
-        rw [h1, ih']
-        simp [hl, hh, Except.map]
+    have h1 := scanOne_render c hg ha hm fs d (hwf d (by simp))
+    simp only [List.map_cons, scan, List.any_cons]
+    rw [h1, ih']
+    rcases Bool.eq_false_or_eq_true (deniedFd fs d) with hdn | hdn
+    · simp [hdn]
+    · rcases Bool.eq_false_or_eq_true (List.any ds (deniedFd fs)) with hds | hds
+      · rcases Bool.eq_false_or_eq_true (hits fs d) with hh | hh
+        · simp [hdn, hds, hh, Except.map]
+        · cases hl : listed fs d <;> simp [hdn, hds, hh, hl, Except.map]
+      · rcases Bool.eq_false_or_eq_true (hits fs d) with hh | hh
+        · simp [hdn, hds, hh, hits_listed fs d hh, Except.map]
+        · cases hl : listed fs d <;> simp [hdn, hds, hh, hl, Except.map]
 
 /-! ### a process dying during the scan -/
 
